@@ -318,8 +318,8 @@ def enum_iter_table(repo):
     def compute():
         from ..pe import BreakEx, ContinueEx
         fi = repo.fn(EXPAND, "enum_init_block_inner")
-        loops = [n for n in walk(fi.body) if n["k"] == "While"]
-        if len(loops) != 1:
+        loops = [n for n in walk(fi.body) if n["k"] in ("While", "For")]
+        if len(loops) != 1 or (loops[0]["k"] == "While" and loops[0]["cond"]["k"] != "LetExpr"):
             raise Inconclusive("enum_init_block_inner: expected one member loop")
         loop = loops[0]
 
@@ -330,11 +330,32 @@ def enum_iter_table(repo):
             return e
 
         def run(ev):
+            from ..pe import NeedDecision, SymObj as _S
             env = ev.sym_params(fi)
             env["fragments"] = ListV([])
-            src = ev.eval(loop["cond"]["expr"], env)
-            if not ev.bind(loop["cond"]["pat"], src, env):
-                return ("exit", [])
+            # locals hoisted before the loop keep their definitions
+            for st in fi.body["stmts"]:
+                if st["line"] >= loop["line"]:
+                    break
+                if st["k"] == "Let" and st.get("init") is not None and st["init"]["k"] != "Closure":
+                    p_ = st["pat"]
+                    while p_["k"] in ("PType", "PRef"):
+                        p_ = p_["pat"]
+                    if p_["k"] == "PIdent" and p_["name"] not in env:
+                        try:
+                            env[p_["name"]] = ev.eval(st["init"], env)
+                        except NeedDecision:
+                            raise
+                        except Exception:
+                            env[p_["name"]] = _S(p_["name"], ("named", "?"))
+            if loop["k"] == "While":
+                src = ev.eval(loop["cond"]["expr"], env)
+                if not ev.bind(loop["cond"]["pat"], src, env):
+                    return ("exit", [])
+            else:
+                # one symbolic element of the member list (named like the peeked element of the while-let form)
+                if not ev.bind(loop["pat"], _S("members.peek()!", ("named", "VariantData")), env):
+                    return ("exit", [])
             try:
                 ev.eval_block(loop["body"], env)
             except ContinueEx:
@@ -376,7 +397,7 @@ def r3(chk):
             skip = (d == "From" and ghost) or (d != "From" and ghost and not gact)
             key = f"variant[{d},ghost={ghost},default={gact if ghost else '-'}]"
             if skip:
-                chk.expect("R3", key, flow == "continue" and not frs, EXPAND, fi.line, "ghost variant must be skipped in this direction", found=[flow, frs])
+                chk.expect("R3", key, flow in ("continue", "next") and not frs, EXPAND, fi.line, "ghost variant must be skipped in this direction", found=[flow, frs])
             else:
                 chk.expect("R3", key, flow == "next" and len(frs) == 1 and frs[0].startswith("render_enum_line("), EXPAND, fi.line, "variant must contribute exactly one arm", found=[flow, [f[:40] for f in frs]])
         elif md == "GhostData":
@@ -386,7 +407,11 @@ def r3(chk):
     T = fn_table(repo, "enum_init_block_inner")
     anys = [render(m["args"][0]).replace(" ", "") for m in method_calls(fi.body, "any")]
     want_any = ["|v|(v.attrs.lit(&ctx.struct_attr.ty).is_some()||v.attrs.pat(&ctx.struct_attr.ty).is_some())", "|v|v.attrs.ghost(&ctx.struct_attr.ty,&ctx.kind).is_some()"]
-    chk.expect("R3", "default-case/predicates", anys == want_any, EXPAND, fi.line, "default case predicates (any literal/pattern; any ghost variant)", expected=want_any, found=anys)
+    from ..src import local_defs, subst_locals
+    defs_ = local_defs(fi)
+    anys_r = [subst_locals(a, defs_).replace("(&ctx.struct_attr.ty)", "(&ctx.struct_attr.ty)") for a in anys]
+    anys_r = [re.sub(r"\((&?ctx\.struct_attr\.ty)\b", lambda m_: "(&ctx.struct_attr.ty" if not m_.group(1).startswith("&") else m_.group(0), a) for a in anys_r]
+    chk.shape("R3", "default-case/predicates", sorted(anys_r) == sorted(want_any) or anys == want_any, False, EXPAND, fi.line, what="default case predicates (any literal/pattern; any ghost variant)", expected=want_any, found=anys_r)
     for lf in T["leaves"]:
         if lf.kind != "ok" or lf.toks is None:
             continue
@@ -447,7 +472,8 @@ def r5_r6(chk):
     bad_ = bool(pv) and bool(pg) and min(pg) < min(pv)
     chk.shape("R6", "enum_init_block/order", good, bad_, EXPAND, fi.line, what="variants must come first in declaration order, ghosts after", found={"variant_adds": len(pv), "ghost_adds": len(pg)})
     bad = [m["method"] for f_ in ("enum_init_block", "enum_init_block_inner") for m in method_calls(repo.fn(EXPAND, f_).body)
-           if m["method"] in ("rev", "sort", "sort_by", "sort_by_key", "sort_unstable", "sort_unstable_by", "reverse", "dedup", "swap", "retain")]
+           if m["method"] in ("rev", "sort", "sort_by", "sort_by_key", "sort_unstable", "sort_unstable_by", "sort_by_cached_key", "reverse", "dedup", "swap", "retain", "partition",
+                              "partition_in_place", "rotate_left", "rotate_right", "select_nth_unstable", "swap_remove", "skip", "take", "step_by")]
     chk.expect("R6", "no-reordering", not bad, EXPAND, fi.line, "reordering adaptor on the arm list", found=bad)
     fin = repo.fn(EXPAND, "enum_init_block_inner")
     st = fin.body["stmts"]
